@@ -42,7 +42,7 @@ func (e *errReader) run() {
 		if !ok {
 			return
 		}
-		e.wd.rec.stamp()
+		e.wd.errsSeenSeq = append(e.wd.errsSeenSeq, e.wd.rec.stamp())
 		e.wd.errsSeen = append(e.wd.errsSeen, errText(v))
 	}
 }
